@@ -117,7 +117,8 @@ func VerifC11_Weights() {
 	rem0 := c.remainder
 	_ = w
 	out := c.For(zz.Time(now))
-	idx := int((now / w) % int64(n))
+	// the weight cycle is aligned to Go's zero time (what Time.Truncate rounds to), 62135596800 s before the Unix epoch
+	idx := int(((now/1_000_000_000 + 62135596800) / 86400) % int64(n))
 	// reference: same formula with the reference index
 	t := zz.Time(now)
 	slot := float64(t.Sub(t.Truncate(c.repeatWindow)))
